@@ -17,6 +17,8 @@ func neutralise(name string, c *Case) (*Case, bool) {
 	switch name {
 	case "plain-names":
 		return neutraliseRename(c, isExoticName, true)
+	case "no-punctuation-only-names":
+		return neutraliseRename(c, func(n string) bool { return normName(n) == "" }, true)
 	case "no-oaigen-names":
 		return neutraliseRename(c, func(n string) bool { return strings.Contains(n, "OAIGen") }, false)
 	case "no-keepnames":
